@@ -652,6 +652,18 @@ def c14(run):
     for ll in range(58, 67):
         t = [120] * ll
         texts += [t, t + [46], [119, 46] + t, t + [46, 119]]
+    # two boundaries at once: labels of 60..64 bytes repeated up to totals of 246..258 (with and without the final dot)
+    for ll in range(60, 65):
+        for total in range(246, 259):
+            t = []
+            while len(t) + ll + 1 <= total:
+                t += [122] * ll + [46]
+            rest = total - len(t)
+            if rest > 0:
+                t += [119] * rest
+            else:
+                t = t[:-1]
+            texts += [t, t + [46]]
     for total in range(236, 263):
         t = []
         while len(t) + 51 <= total:
